@@ -25,7 +25,7 @@ class Unit:
     """One function under contract, one harness configuration."""
 
     def __init__(self, name, path, qualname, make_inputs, post=None, loops=None, ns=None, raises=None,
-                 observables=None, module=None, prop=None, max_paths=400, wrap_call=None):
+                 observables=None, module=None, prop=None, max_paths=400, wrap_call=None, inline=None):
         self.name = name
         self.path = path
         self.qualname = qualname
@@ -38,6 +38,8 @@ class Unit:
         self.module = module
         self.max_paths = max_paths
         self.wrap_call = wrap_call
+        self.inline = inline or []      # [(path, qualname, loops)] callees rebuilt in the same shim namespace (verified as part of the caller)
+        self.bound_scalars = None
 
 
 class UnitResult:
@@ -179,6 +181,8 @@ def explore(unit, repo):
     try:
         ns = base_namespace(unit.module)
         ns.update(unit.ns)
+        for ip, iq, il in unit.inline:
+            g, _ = cut.build(os.path.join(repo, ip), iq, il, ns)
         f, nloops = cut.build(os.path.join(repo, unit.path), unit.qualname, unit.loops, ns)
     except Unsupported as ex:
         res.undecided_reason = 'extraction: %s' % ex
